@@ -190,8 +190,14 @@ def judge(ck, live_trace, rec_trace, counters):
             cur = e
         if (i + 1) in bad1 and id(cur) not in first_bad_run:
             first_bad_run[id(cur)] = 1
+            # the known compound-fault finding also shows at an in-process restart inside the history: the frames the
+            # failed rollback could not remove are replayed.  Only a rejected *restart* event is attributed to it; a
+            # live census that changes at the failing call itself is a different violation and is reported.
+            c = cur["case"]
+            fk = KEY_TRUNC if (isinstance(c, dict) and c.get("second") == "ftruncate" and e["ev"] == "neutral" and e.get("t") == "restart") else None
             ck.violation({"history": {"steps": cur["steps"]}, "cfg": cur["cfg"], "case": cur["case"], "fault": cur["fault"], "rejected_event": e},
-                         "live state changed by a failed call (or wrong result): history %d case %s: %s" % (cur["hi"], cur["case"], json.dumps(e)[:200]))
+                         "live state changed by a failed call (or wrong result): history %d case %s: %s" % (cur["hi"], cur["case"], json.dumps(e)[:200]),
+                         finding_key=fk)
     cur = None
     for i, e in enumerate(rec_trace):
         if e["ev"] == "hist":
